@@ -504,6 +504,18 @@ def c16_execute(trace, tier, res):
                          record=True, scenario=scen0, cfg=cfg)
         if param:
             counters.hit("fault.encoding.wrapped_host_param")
+        if core.h64(f"{seed}|helpers-first") % 4 == 0:
+            # helper calls on a first environment, then the episode is
+            # played on a second environment built from the same Scenario
+            from . import oracles
+            counters.hit("fault.readonly_api_calls")
+            try:
+                oracles._random_initial(sim.env)
+                sim.env.generate_initial_state()
+                sim.env.get_score_upper_bound()
+            except Exception as e:
+                raise SutError("helpers", e)
+            sim._reconstruct()
         if not model.goal(cfg, st):
             raise Violation("C16.model", "the reference closure with every "
                             "draw succeeding does not reach root on all "
